@@ -97,11 +97,19 @@ pub fn alpha_beta_search(
 
     // First, score each of the candidates. Note: `par_iter` is a rayon
     // primitive that allows for parallel iteration over a collection.
+    #[cfg(chess_verif)]
+    crate::verif_hooks::emit_with(|| crate::verif_hooks::SearchEvent::SearchBegin {
+        tasks: candidates.len(),
+    });
     let scored_moves = candidates.par_iter().map(|chess_move| {
         let mut local_board = board.clone();
         let mut local_move_generator = MoveGenerator::new();
         let mut local_context = context.clone();
         let local_depth = context.search_depth();
+        #[cfg(chess_verif)]
+        let _verif_task_guard = crate::verif_hooks::TaskGuard::begin(
+            candidates.iter().position(|m| m == chess_move).unwrap(),
+        );
 
         chess_move.apply(&mut local_board).unwrap();
         local_board.toggle_turn();
@@ -167,7 +175,20 @@ fn alpha_beta_minimax(
         depth,
         maximizing_player,
     );
+    #[cfg(chess_verif)]
+    crate::verif_hooks::emit_with(|| crate::verif_hooks::SearchEvent::CacheRead {
+        key: format!("{:?}", search_node),
+        hash: board.current_position_hash(),
+        alpha,
+        beta,
+        depth,
+        maximizing: maximizing_player,
+    });
     if let Some(score) = check_cache(context, search_node) {
+        #[cfg(chess_verif)]
+        crate::verif_hooks::emit_with(|| crate::verif_hooks::SearchEvent::CacheReadDone {
+            hit: Some(score),
+        });
         trace!(
             "{}alpha_beta_minimax returning cached score: {} for depth: {}",
             "  ".repeat((context.search_depth() - depth) as usize),
@@ -176,6 +197,8 @@ fn alpha_beta_minimax(
         );
         return Ok(score);
     }
+    #[cfg(chess_verif)]
+    crate::verif_hooks::emit_with(|| crate::verif_hooks::SearchEvent::CacheReadDone { hit: None });
 
     trace!(
         "{}alpha_beta_minimax(depth: {}, alpha: {}, beta: {}, maximizing_player: {})",
@@ -274,6 +297,11 @@ fn alpha_beta_minimax(
 }
 
 fn set_cache(context: &mut SearchContext, search_node: SearchNode, score: i16) {
+    #[cfg(chess_verif)]
+    crate::verif_hooks::emit_with(|| crate::verif_hooks::SearchEvent::CacheWrite {
+        key: format!("{:?}", search_node),
+        value: score,
+    });
     let mut cache = context.search_result_cache.write().unwrap();
     cache.insert(search_node, score);
 }
